@@ -786,6 +786,8 @@ type Solver struct {
 	scopedT  []int
 	scopedD  []string
 	needRestart bool
+	HardLimit time.Duration
+	HardKills int
 	bin      string
 	args     []string
 	preamble []string
@@ -1013,7 +1015,7 @@ func (s *Solver) Check(conj []*Term) string {
 func (s *Solver) finishCheck() string {
 	t0 := time.Now()
 	s.send("(check-sat)")
-	res := s.readLine()
+	res := s.readLineDeadline()
 	d := time.Since(t0)
 	s.Total += d
 	if d > 500*time.Millisecond {
@@ -1050,6 +1052,38 @@ func (s *Solver) finishCheck() string {
 		s.NUnknown++
 	}
 	return res
+}
+
+// readLineDeadline reads the verdict line, but gives up when the solver ignores its own per-query timeout (seen with z3
+// on some hash-heavy queries): after HardLimit the process is killed, the answer is "unknown" and a fresh process is
+// started before the next query.
+func (s *Solver) readLineDeadline() string {
+	if s.HardLimit <= 0 {
+		return s.readLine()
+	}
+	type rd struct {
+		l   string
+		err error
+	}
+	ch := make(chan rd, 1)
+	out := s.out
+	go func() {
+		l, err := out.ReadString('\n')
+		ch <- rd{l, err}
+	}()
+	select {
+	case r := <-ch:
+		if r.err != nil {
+			panic("solver died: " + r.err.Error())
+		}
+		return strings.TrimSpace(r.l)
+	case <-time.After(s.HardLimit):
+		s.cmd.Process.Kill()
+		<-ch
+		s.HardKills++
+		s.needRestart = true
+		return "unknown"
+	}
 }
 
 func (s *Solver) readLine() string {
